@@ -208,8 +208,10 @@ def _run(cmd, cwd=None, timeout=COQC_TIMEOUT, env=None):
 
 
 def coq_static_build(targets: list[str] | None = None) -> tuple[bool, str]:
-    """(Re)build the committed development (full .vo build).  Serialised with a lock so that several
-    checks may run concurrently."""
+    """(Re)build the committed development (full .vo build).  Only the (re)generation of _CoqProject/Makefile is
+    serialised by a lock; the build itself runs unlocked (targets of different properties are disjoint apart from
+    already-built shared bases), under a time limit and an address-space limit so that a diverging proof cannot
+    block or exhaust the machine."""
     COQ.mkdir(exist_ok=True)
     with open(COQ / '.build.lock', 'w') as lock:
         fcntl.flock(lock, fcntl.LOCK_EX)
@@ -220,9 +222,10 @@ def coq_static_build(targets: list[str] | None = None) -> tuple[bool, str]:
             rc, out, err = _run(['coq_makefile', '-f', '_CoqProject', '-o', 'Makefile'], cwd=COQ)
             if rc != 0:
                 return False, out + err
-        cmd = ['make', '-j', str(os.cpu_count() or 4)] + (targets or [])
-        rc, out, err = _run(['timeout', '3000'] + cmd, cwd=COQ, timeout=3100)
-        return rc == 0, (out + err)[-6000:]
+    jobs = str(min(8, os.cpu_count() or 4))
+    cmd = 'ulimit -v 12000000; exec timeout 1500 make -j ' + jobs + ' ' + ' '.join(targets or [])
+    rc, out, err = _run(['bash', '-c', cmd], cwd=COQ, timeout=1600)
+    return rc == 0, (out + err)[-6000:]
 
 
 def coqc_file(path: Path, timeout=COQC_TIMEOUT) -> tuple[int, str, str]:
